@@ -48,11 +48,12 @@ type Snap []Rec
 
 // SnapOpts selects snapshot variants.
 type SnapOpts struct {
-	Roots    []string // walk from each of these (default "/")
-	Full     bool     // also record mtimes (emulated file systems only)
-	MaxNodes int
-	NoOwner  bool // do not record owners (file systems without identity manager)
-	NoGuard  bool // walk on the calling goroutine, unbounded
+	Roots     []string // walk from each of these (default "/")
+	Full      bool     // also record mtimes (emulated file systems only)
+	MaxNodes  int
+	NoOwner   bool // do not record owners (file systems without identity manager)
+	OwnerZero int  // see Runner.OwnerZero
+	NoGuard   bool // walk on the calling goroutine, unbounded
 }
 
 // Snapshot walks the tree with ReadDir + Lstat (+ ReadFile, Readlink) through
@@ -104,7 +105,7 @@ func snapshot(fsys FS, o SnapOpts) (snap Snap) {
 			r.Type = TypeLetter(fi.Mode())
 			r.Perm = PermBits(fi.Mode())
 			if !o.NoOwner {
-				r.Uid, r.Gid = st.Uid(), st.Gid()
+				r.Uid, r.Gid = NormID(st.Uid(), o.OwnerZero), NormID(st.Gid(), o.OwnerZero)
 			}
 			if o.Full {
 				r.Mtime = fi.ModTime().UnixNano()
